@@ -240,8 +240,18 @@ struct static_array  // NOLINT(fuchsia-multiple-inheritance) : multiple inherita
 	}
 
 	constexpr static_array(decay_type&& other, allocator_type const& alloc) noexcept
-	: array_alloc{alloc}, ref(std::exchange(other.base_, nullptr), other.extensions()) {
-		std::move(other).layout_mutable() = typename static_array::layout_type(typename static_array::extensions_type{});  // = {};  careful! this is the place where layout can become invalid
+	: array_alloc{alloc}, ref(
+		(alloc == other.alloc())
+			?std::exchange(other.base_, nullptr)
+			:array_alloc::allocate(static_cast<typename multi::allocator_traits<allocator_type>::size_type>(other.num_elements()))
+		,
+		other.extensions()
+	) {
+		if(this->alloc() == other.alloc()) {
+			std::move(other).layout_mutable() = typename static_array::layout_type(typename static_array::extensions_type{});  // = {};  careful! this is the place where layout can become invalid
+		} else {  // the block of an unequal allocator cannot be adopted: move element by element
+			adl_alloc_uninitialized_move_n(this->alloc(), other.data_elements(), other.num_elements(), this->data_elements());
+		}
 	}
 
 	constexpr explicit static_array(decay_type&& other) noexcept
